@@ -3,6 +3,7 @@ package oracle
 import (
 	"net/http"
 	"net/url"
+	"sort"
 	"strconv"
 
 	"verif/harness/model"
@@ -103,18 +104,54 @@ func buildShadow(o *world.Obs, ignoreLoc map[int]bool) *Shadow {
 			return sh
 		}
 	}
-	for i, ex := range o.Exchanges {
+	// timeline: exchange starts (obligations are decided on the state at that instant) and
+	// call completions (the store changes when a reply has been handled), in sequence order
+	type event struct {
+		seq  int64
+		ex   *world.Exchange
+		call *world.Call // nil: start of ex
+	}
+	var evs []event
+	for _, ex := range o.Exchanges {
+		evs = append(evs, event{seq: ex.StartSeq, ex: ex})
+	}
+	for _, c := range o.Calls {
+		if c.Ex < 0 || c.Ex >= len(o.Exchanges) {
+			continue
+		}
+		end := c.EndSeq
+		if !c.Completed {
+			end = 1 << 62
+		}
+		evs = append(evs, event{seq: end, ex: o.Exchanges[c.Ex], call: c})
+	}
+	sort.SliceStable(evs, func(i, j int) bool { return evs[i].seq < evs[j].seq })
+	inFlight := func(nf string, at int64) bool {
+		for _, c := range o.Calls {
+			if c.Ex < 0 || c.Ex >= len(o.Exchanges) || c.StartSeq >= at {
+				continue
+			}
+			if c.Completed && c.EndSeq <= at {
+				continue
+			}
+			if cnf, ok := model.NF(o.Exchanges[c.Ex].Req.URL, false); ok && cnf == nf {
+				return true
+			}
+		}
+		return false
+	}
+	for _, ev := range evs {
+		ex := ev.ex
 		nf, ok := model.NF(ex.Req.URL, false)
 		if !ok {
 			continue
 		}
 		h := ReqHeader(ex.Req)
-		var nextStart int64 = 1 << 62
-		if i+1 < len(o.Exchanges) {
-			nextStart = o.Exchanges[i+1].StartSeq
-		}
-		if IsPlainGET(ex.Req) {
-			// 1. obligation?
+		if ev.call == nil {
+			if !IsPlainGET(ex.Req) {
+				continue
+			}
+			// obligation?
 			var sure []*ShadowEntry
 			blockers := 0
 			for key, list := range sh.entries {
@@ -140,7 +177,7 @@ func buildShadow(o *world.Obs, ignoreLoc map[int]bool) *Shadow {
 					}
 				}
 			}
-			if requestIsPlain(ex.Req) && len(sure) == 1 && blockers == 0 {
+			if requestIsPlain(ex.Req) && len(sure) == 1 && blockers == 0 && !inFlight(nf, ex.StartSeq) {
 				e := sure[0]
 				v := e.Latest()
 				cc := model.ParseCC(v.Header)
@@ -154,104 +191,16 @@ func buildShadow(o *world.Obs, ignoreLoc map[int]bool) *Shadow {
 					sh.Obligations = append(sh.Obligations, Obligation{Ex: ex, Entry: e, V: v, NVers: len(e.Versions), Kind: kind})
 				}
 			}
-			// 2. state update from this exchange's calls (foreground and background)
-			for _, c := range o.CallsOf(ex.Idx) {
-				if !c.Completed {
-					sh.markUncertain(nf, h, "call never completed")
-					continue
-				}
-				if c.EndSeq > nextStart {
-					sh.markUncertain(nf, h, "background call overlaps later exchanges")
-				}
-				if c.Kind != "resp" {
-					continue
-				}
-				if c.Status == http.StatusNotModified {
-					if HasClientConditional(ex.Req) {
-						// the client's own conditional request: the 304 is passed through
-						sh.markUncertain(nf, h, "client conditional")
-						continue
-					}
-					target := sh.find304Target(nf, h, c)
-					if target == nil {
-						sh.markUncertain(nf, h, "304 without identifiable target")
-						continue
-					}
-					cur := target.Latest()
-					if _, kind := cur.AgeField(); kind != "absent" && len(c.RespHdr.Values("Age")) == 0 {
-						// DESIGN §3.21: original carried Age and the 304 does not -> age restart not demanded
-						target.Certain = false
-						target.Why = "Age carried over a 304"
-					}
-					merged := model.Merge304(cur.Header, c.RespHdr, c.EndNs)
-					target.Versions = append(target.Versions, model.Version{Status: cur.Status, Header: merged, ReqNs: c.StartNs, RespNs: c.EndNs, Why: "304 s" + strconv.Itoa(c.Serial)})
-					target.Validated++
-					// a 304 may change the Vary field: the variant is then keyed by the
-					// validating request's values of the newly nominated fields
-					if len(c.RespHdr.Values("Vary")) > 0 {
-						fields, star := model.VaryFields(merged.Values("Vary"))
-						target.Fields = fields
-						target.ReqHeader = h
-						if star {
-							target.Certain = false
-							target.Why = "Vary: * after 304"
-						}
-					}
-					continue
-				}
-				// full reply
-				verdict, why := model.Storability(c.Method, c.Header, c.Status, c.RespHdr, c.BodyFails())
-				// entries that the request selects are replaced (or left in an unknown state)
-				var validated *ShadowEntry
-				if inm := c.Header.Get("If-None-Match"); inm != "" {
-					for _, e := range sh.entries[nf] {
-						if e.Latest().Header.Get("Etag") == inm {
-							validated = e
-						}
-					}
-				}
-				kept := sh.entries[nf][:0]
-				for _, e := range sh.entries[nf] {
-					m := e.match(h)
-					if m == "no" {
-						kept = append(kept, e)
-						continue
-					}
-					if verdict == "sure" && e == validated && e.Certain {
-						sh.Dead[e.Reply.Serial] = c.EndSeq
-						sh.DeadBy[e.Reply.Serial] = c.Serial
-					}
-					if verdict != "sure" {
-						e.Certain = false
-						e.Why = "full reply with storability " + verdict + " (" + why + ")"
-						kept = append(kept, e)
-					}
-				}
-				sh.entries[nf] = kept
-				if verdict == "no" {
-					continue
-				}
-				fields, star := model.VaryFields(c.RespHdr.Values("Vary"))
-				ne := &ShadowEntry{URLNF: nf, URL: ex.Req.URL, Fields: fields, ReqHeader: h, Reply: c, Certain: verdict == "sure" && !star,
-					Why: why, StoredSeq: c.EndSeq,
-					Versions: []model.Version{{Status: c.Status, Header: c.RespHdr.Clone(), ReqNs: c.StartNs, RespNs: c.EndNs, Why: "original"}}}
-				if validated != nil {
-					ne.Replaced = validated.Reply
-				}
-				if len(ex.Req.Header) > 0 && model.ParseCC(h).Has["no-store"] {
-					ne.Certain = false
-				}
-				sh.entries[nf] = append(sh.entries[nf], ne)
-			}
 			continue
 		}
-		// not a plain GET
-		safe, _ := model.IsSafeMethod(ex.Req.Method)
-		if safe {
-			continue // bypass: no effect on stored entries
-		}
-		delete(sh.entries, nf)
-		for _, c := range o.CallsOf(ex.Idx) {
+		c := ev.call
+		if !IsPlainGET(ex.Req) {
+			// an unsafe exchange: handled when its (foreground) call completes
+			safe, _ := model.IsSafeMethod(ex.Req.Method)
+			if safe {
+				continue // bypass: no effect on stored entries
+			}
+			delete(sh.entries, nf)
 			if c.Kind != "resp" || ignoreLoc[ex.Idx] {
 				continue
 			}
@@ -273,9 +222,120 @@ func buildShadow(o *world.Obs, ignoreLoc map[int]bool) *Shadow {
 					}
 				}
 			}
+			continue
 		}
+		if !c.Completed {
+			sh.markUncertain(nf, h, "call never completed")
+			continue
+		}
+		if c.Kind != "resp" {
+			continue
+		}
+		if c.Status == http.StatusNotModified {
+			if HasClientConditional(ex.Req) {
+				// the client's own conditional request: the 304 is passed through
+				sh.markUncertain(nf, h, "client conditional")
+				continue
+			}
+			if !c.Fg && overlapsOther(o, c, nf) {
+				// two background validations of one URL in flight together: which one the
+				// store ends up reflecting is not judged (DESIGN §3.21)
+				sh.markUncertain(nf, h, "concurrent background validations")
+				continue
+			}
+			target := sh.find304Target(nf, h, c)
+			if target == nil {
+				sh.markUncertain(nf, h, "304 without identifiable target")
+				continue
+			}
+			cur := target.Latest()
+			if _, kind := cur.AgeField(); kind != "absent" && len(c.RespHdr.Values("Age")) == 0 {
+				// DESIGN §3.21: original carried Age and the 304 does not -> age restart not demanded
+				target.Certain = false
+				target.Why = "Age carried over a 304"
+			}
+			merged := model.Merge304(cur.Header, c.RespHdr, c.EndNs)
+			target.Versions = append(target.Versions, model.Version{Status: cur.Status, Header: merged, ReqNs: c.StartNs, RespNs: c.EndNs, Why: "304 s" + strconv.Itoa(c.Serial)})
+			target.Validated++
+			// a 304 may change the Vary field: the variant is then keyed by the
+			// validating request's values of the newly nominated fields
+			if len(c.RespHdr.Values("Vary")) > 0 {
+				fields, star := model.VaryFields(merged.Values("Vary"))
+				target.Fields = fields
+				target.ReqHeader = h
+				if star {
+					target.Certain = false
+					target.Why = "Vary: * after 304"
+				}
+			}
+			continue
+		}
+		// full reply
+		verdict, why := model.Storability(c.Method, c.Header, c.Status, c.RespHdr, c.BodyFails())
+		// entries that the request selects are replaced (or left in an unknown state)
+		var validated *ShadowEntry
+		if inm := c.Header.Get("If-None-Match"); inm != "" {
+			for _, e := range sh.entries[nf] {
+				if e.Latest().Header.Get("Etag") == inm {
+					validated = e
+				}
+			}
+		}
+		kept := sh.entries[nf][:0]
+		for _, e := range sh.entries[nf] {
+			m := e.match(h)
+			if m == "no" {
+				kept = append(kept, e)
+				continue
+			}
+			if verdict == "sure" && e == validated && e.Certain {
+				sh.Dead[e.Reply.Serial] = c.EndSeq
+				sh.DeadBy[e.Reply.Serial] = c.Serial
+			}
+			if verdict != "sure" {
+				e.Certain = false
+				e.Why = "full reply with storability " + verdict + " (" + why + ")"
+				kept = append(kept, e)
+			}
+		}
+		sh.entries[nf] = kept
+		if verdict == "no" {
+			continue
+		}
+		fields, star := model.VaryFields(c.RespHdr.Values("Vary"))
+		ne := &ShadowEntry{URLNF: nf, URL: ex.Req.URL, Fields: fields, ReqHeader: h, Reply: c, Certain: verdict == "sure" && !star,
+			Why: why, StoredSeq: c.EndSeq,
+			Versions: []model.Version{{Status: c.Status, Header: c.RespHdr.Clone(), ReqNs: c.StartNs, RespNs: c.EndNs, Why: "original"}}}
+		if validated != nil {
+			ne.Replaced = validated.Reply
+		}
+		if !c.Fg && (!c.Completed || overlapsOther(o, c, nf)) {
+			// stored by a background goroutine while other requests for the URL were running:
+			// which writer's index update wins is not judged (DESIGN §3.21)
+			ne.Certain = false
+			ne.Why = "stored concurrently with other exchanges"
+		}
+		if len(ex.Req.Header) > 0 && model.ParseCC(h).Has["no-store"] {
+			ne.Certain = false
+		}
+		sh.entries[nf] = append(sh.entries[nf], ne)
 	}
 	return sh
+}
+
+// overlapsOther: another call for the same URL was in flight at some time during c.
+func overlapsOther(o *world.Obs, c *world.Call, nf string) bool {
+	for _, d := range o.Calls {
+		if d == c || d.Ex < 0 || d.Ex >= len(o.Exchanges) {
+			continue
+		}
+		if d.StartSeq < c.EndSeq && (!d.Completed || d.EndSeq > c.StartSeq) {
+			if dnf, ok := model.NF(o.Exchanges[d.Ex].Req.URL, false); ok && dnf == nf {
+				return true
+			}
+		}
+	}
+	return false
 }
 
 func (sh *Shadow) markUncertain(nf string, h http.Header, why string) {
